@@ -5,7 +5,7 @@ VERIF = os.path.dirname(os.path.dirname(os.path.abspath(__file__)))
 sys.path.insert(0, VERIF)
 from sa import alpha
 root = sys.argv[1] if len(sys.argv) > 1 else "/repo/discopy"
-table, cmps = {}, {}
+table, cmps, loops = {}, {}, {}
 for dp, dn, fns in os.walk(root):
     dn[:] = [d for d in dn if d != "__pycache__"]
     for f in sorted(fns):
@@ -20,6 +20,10 @@ for dp, dn, fns in os.walk(root):
             c = alpha.compare_table_of(ast.parse(open(p).read()))
             if c:
                 cmps[name] = c
+            lp = alpha.loop_table_of(ast.parse(open(p).read()))
+            if lp:
+                loops[name] = lp
 json.dump(table, open(alpha.TABLE, "w"), indent=0, sort_keys=True)
 json.dump(cmps, open(alpha.CMP_TABLE, "w"), indent=0, sort_keys=True)
+json.dump(loops, open(alpha.LOOP_TABLE, "w"), indent=0, sort_keys=True)
 print("%d modules, %d functions with locals" % (len(table), sum(len(v) for v in table.values())))
